@@ -9,3 +9,8 @@ func init() {
 		props[id] = &propCfg{Engine: "nodesim", Test: "Test" + id, Level: "exploration", Quick: q, Thorough: th}
 	}
 }
+
+func init() {
+	props["C37"] = &propCfg{Engine: "nodesim", Test: "TestC37", Level: "exploration", Race: true,
+		Quick: tierCfg{Runs: 480, JobSize: 30, BudgetS: 170}, Thorough: tierCfg{Runs: 16000, JobSize: 50, BudgetS: 1700}}
+}
